@@ -2,6 +2,7 @@ package core
 
 import (
 	"fmt"
+	"os"
 	"sort"
 	"strings"
 )
@@ -186,6 +187,9 @@ func DiffPrograms(r *Run, pool *Pool, progs []*CellProgram, report func(v *CellV
 		if n.BuildErr != "" || n.Timeout {
 			genRejects++
 			fmt.Printf("GENERATOR-REJECT program=%s: %s\n", p.Name, firstLines(n.BuildErr, 6))
+			if d := os.Getenv("VERIF_DUMP_REJECTS"); d != "" {
+				os.WriteFile(d+"/"+p.Name+".go", []byte(p.Render(nil)), 0o644)
+			}
 			continue
 		}
 		nc := SplitCells(n.Out)
